@@ -36,17 +36,23 @@ def checks_only(wt, var, extra):
     if rc != 0:
         print("patch does not apply", out)
         return 2
+    until_caught = bool(os.environ.get("SEED_UNTIL_CAUGHT"))
     try:
-        todo = [pid] + [c for c in list(meta.get("checks", {})) + extra if c != pid]
+        prev = [c for c in meta.get("caught_by", []) if c != pid]
+        todo = [pid] + prev + [c for c in list(meta.get("checks", {})) + extra if c != pid and c not in prev]
         seen = set()
         for c in todo:
             if c in seen:
                 continue
+            if until_caught and any(meta["checks"].get(x, {}).get("exit") == 1 and x in seen for x in seen):
+                # final pass: the own check first, the others only while nothing has caught the change (older results of the
+                # checks that are not re-run are kept, marked by their older 'at')
+                break
             seen.add(c)
             t0 = time.time()
             rc, out = sh([os.path.join(HERE, "check"), c, "--tier", "quick", "--no-evidence"], HERE,
                          {"VF_REPO": wt, "VERIF_SEED": os.environ.get("VERIF_SEED", "1")})
-            meta.setdefault("checks", {})[c] = dict(exit=rc, wall_s=round(time.time() - t0, 1),
+            meta.setdefault("checks", {})[c] = dict(exit=rc, wall_s=round(time.time() - t0, 1), at=time.strftime("%Y-%m-%d %H:%M"),
                                                     violations=[l[:300] for l in out.splitlines() if l.startswith("violation ")][:4],
                                                     harness=[l for l in out.splitlines() if "HARNESS" in l][:1])
     finally:
